@@ -23,6 +23,7 @@ FORWARDERS = ('std::move', 'std::forward')
 
 CALLS = ('CallExpr', 'CXXMemberCallExpr', 'CXXOperatorCallExpr')
 CONSTRUCTS = ('CXXConstructExpr', 'CXXTemporaryObjectExpr')
+CASTS_EXPLICIT = ('CStyleCastExpr', 'CXXStaticCastExpr', 'CXXReinterpretCastExpr', 'CXXConstCastExpr', 'CXXFunctionalCastExpr')
 
 
 def clean_t(t):
@@ -445,7 +446,7 @@ class HandoffAnalysis:
                     continue
                 if RX_TBB_ENQUEUE.match(q) or RX_TBB_RUN.match(q):
                     kind = 'tbb-enqueue' if RX_TBB_ENQUEUE.match(q) else 'tbb-run'
-                    ev[n['id']] = dict(kind=kind, node=n, member=member_of_this(tu, obj) if obj is not None else None)
+                    ev[n['id']] = dict(kind=kind, node=n, member=member_of_this(tu, obj) if obj is not None else None, obj=obj)
                     consumed.add(hits[0][1]['id'])
                     continue
                 callee = tu.callee_fn(n)
